@@ -224,7 +224,8 @@ impl<'a> Gen<'a> {
         }
         if t.external {
             // (an absolute path is no autolink: that takes a scheme)
-            let mut style = if t.dest.contains(':') && self.rng.chance(1, 4) {
+            // (... and no white space)
+            let mut style = if t.dest.contains(':') && !t.dest.contains(' ') && self.rng.chance(1, 4) {
                 LStyle::Auto
             } else {
                 LStyle::Inline
@@ -659,7 +660,12 @@ impl<'a> Gen<'a> {
                 if self.p.html_blocks && !long && self.rng.chance(1, 25) {
                     let w = self.words.next(self.rng, false);
                     item.push(Blk::Html(vec![format!("<!-- {} -->", w)]));
-                    let v = self.plain_words(1, 3);
+                    // (the text after the comment may begin with emphasis or a link)
+                    let mut v = self.plain_words(1, 3);
+                    if self.rng.chance(1, 2) {
+                        let w = self.plain_words(1, 2);
+                        v.insert(0, if self.rng.chance(1, 2) { Inl::Strong(w) } else { Inl::Emph(w) });
+                    }
                     item.push(Blk::Para(v));
                 }
             }
